@@ -374,6 +374,8 @@ def build_c(unit, units, outdir, defines=()):
         if any(re.search(r'\b%s_resize_fill\s*\(' % re.escape(vn), rendered[n]['body'] or '') for n in allu):
             parts.append('size_t gh_f_%s;\nVEC_SHIMS_FILL(%s, %s)' % (vn, vn, el))
             shim_ghosts.append(('size_t', 'gh_f_' + vn))
+        if any(re.search(r'\b%s_bsearch\s*\(' % re.escape(vn), rendered[n]['body'] or '') for n in allu):
+            parts.append('VEC_SHIMS_BSEARCH(%s, %s)' % (vn, el))
         if any(re.search(r'\b%s_find\s*\(' % re.escape(vn), rendered[n]['body'] or '') for n in allu):
             parts.append('VEC_SHIMS_FIND(%s, %s)' % (vn, el))
         if any(re.search(r'\b%s_sort_(asc|desc)\s*\(' % re.escape(vn), rendered[n]['body'] or '') for n in allu):
